@@ -440,13 +440,13 @@ def CmpImpl.render (c : CmpImpl) : List GToks :=
     cmpAttrs +++ "impl" ::: implG +++ trait_ +++ "for" ::: c.thisTy +++ wheres +++ brace body
   match c.op with
   | .partialEq =>
-    [head (["fn", mem "eq"] +++ paren ["&", "self", ",", "__other", ":", "&", "Self"] +++ ["->", "bool"] +++ brace c.inner)]
+    [head ([fnM "eq"] +++ paren ["&", "self", ",", "__other", ":", "&", "Self"] +++ ["->", "bool"] +++ brace c.inner)]
   | .partialOrd =>
-    [head (["fn", mem "partial_cmp"] +++ paren ["&", "self", ",", "__other", ":", "&", "Self"] +++ "->" ::: optOrdering +++ brace c.inner)]
+    [head ([fnM "partial_cmp"] +++ paren ["&", "self", ",", "__other", ":", "&", "Self"] +++ "->" ::: optOrdering +++ brace c.inner)]
   | .ord =>
-    [head (["fn", mem "cmp"] +++ paren ["&", "self", ",", "__other", ":", "&", "Self"] +++ "->" ::: ordering +++ brace c.inner)]
+    [head ([fnM "cmp"] +++ paren ["&", "self", ",", "__other", ":", "&", "Self"] +++ "->" ::: ordering +++ brace c.inner)]
   | .hash =>
-    [head (["fn", mem "hash"] +++ angle ("__H" ::: ":" ::: absPath ["core", "hash", "Hasher"]) +++
+    [head ([fnM "hash"] +++ angle ("__H" ::: ":" ::: absPath ["core", "hash", "Hasher"]) +++
       paren ["&", "self", ",", "__state", ":", "&", "mut", "__H"] +++ brace c.inner)]
   | .eq =>
     [head [],
